@@ -15,9 +15,9 @@ ID = "C16"
 LEAN_TARGETS = ["TornadoModel.C16.Props"]
 _P = "TornadoModel.C16."
 THEOREMS = [_P + n for n in [
-    "one_close_frame", "no_data_after_close", "write_after_close_fails", "on_close_once",
-    "on_close_when_down", "teardown", "echo_unless_sent", "both_closed_sends_close", "on_close_carries_peer_close",
-    "waiting_ping_off", "terminated_monotone", "closed_stays_closed",
+    "one_close_frame", "close_frame_count", "no_data_after_close", "write_after_close_fails", "on_close_once",
+    "on_close_when_down", "down_implies_notified", "teardown_timeout", "closed_iff_logged", "peer_terminated_closed",
+    "close_sent_terminated", "waiting_ping_off", "inv_run",
 ]]
 TRUSTED = [
     "asyncio task/timer ordering and BaseIOStream read/close semantics as abstracted by the model's receive loop "
@@ -36,16 +36,18 @@ RULE = ("event sequences over {localClose, recvClose(5 payload forms), peerDisco
         "non-trivial = at least 2 events and the run reaches a close frame or a transport teardown; distinct by canonical JSON")
 EXHAUSTIVE = {"quick": False, "thorough": True}
 CLAUSES = {
-    "each side sends at most one close frame": "one_close_frame",
+    "each side sends at most one close frame": "one_close_frame, close_frame_count",
     "and no data frame after it": "no_data_after_close",
-    "echoes the peer's close code unless it had already sent its own close frame": "echo_unless_sent + both_closed_sends_close (+ one_close_frame)",
-    "tears down the TCP connection once both sides have closed or the closing timeout elapses": "teardown",
-    "the close notification fires exactly once": "on_close_once + on_close_when_down",
-    "with the peer's code and reason when one was received": "on_close_carries_peer_close (runs without an in-flight on_message; with one: tie only)",
-    "writes after closing fail with WebSocketClosedError": "write_after_close_fails",
+    "echoes the peer's close code unless it had already sent its own close frame":
+        "tie only: Spec.echoesPeerCode + Spec.bothClosedSendsClose applied to every run of the implementation and (by exact correspondence) of the model; stated as echo_unless_sent_goal / both_closed_sends_close_goal",
+    "tears down the TCP connection once both sides have closed or the closing timeout elapses":
+        "teardown_timeout (timeout) + peer_terminated_closed (peer's close processed => transport down); trace form teardown_both_closed_goal tie only",
+    "the close notification fires exactly once": "on_close_once + on_close_when_down + down_implies_notified",
+    "with the peer's code and reason when one was received": "tie only: Spec.notifyCarriesPeerClose (on_close_carries_peer_close_goal)",
+    "writes after closing fail with WebSocketClosedError": "write_after_close_fails + close_sent_terminated",
 }
 PARALLEL = True
-CASE_TIMEOUT = 20
+CASE_TIMEOUT = 60
 LEVEL_NOTE = ("model = close state machine of one endpoint (server handler / client connection) incl. receive loop, "
               "close timer and ping task; all clause theorems are for every event sequence; tie = exact per-step event "
               "comparison with the real handler/client over fake transport + virtual clock")
@@ -99,12 +101,20 @@ def _rand_case(rng):
     return {"side": side, "ping": ping, "ops": ops + TAIL}
 
 
+def _preload():
+    # import everything in the parent so that forked workers do not each compile tornado from source
+    import tornado.web, tornado.httpserver, tornado.websocket, tornado.simple_httpclient  # noqa: F401
+    from core import vloop, faketransport  # noqa: F401
+
+
 def gen_cases(rng, tier):
+    _preload()
     if tier == "quick":
-        yield from _enum(A_CORE, 3, CFGS)
+        yield from _enum(A_CORE, 2, CFGS)
+        yield from _enum(A_CORE, 3, [("server", "off"), ("client", "off"), ("server", "p32"), ("client", "p22")], minlen=3)
         yield from _enum(A_FULL, 2, [("server", "off"), ("client", "off")])
-        yield from _enum(A_SIX, 4, [("server", "p22"), ("client", "p32")], minlen=4)
-        n = 2500
+        yield from _enum(A_SIX, 4, [rng.choice([("server", "p22"), ("client", "p32"), ("client", "off"), ("server", "off")])], minlen=4)
+        n = 1500
     elif tier == "thorough":
         yield from _enum(A_CORE, 4, CFGS)
         yield from _enum(A_CORE, 5, [("server", "off"), ("client", "off"), ("server", "p32"), ("client", "p22")], minlen=5)
@@ -455,6 +465,8 @@ _KNOWN_EVS = {"closeFrame", "dataFrame", "pingFrame", "pongFrame", "notify", "on
 
 
 def _odd_events(impl):
+    if "steps" not in impl:
+        return [["harness", impl.get("harness_exc", "?")]]
     return [e for s in impl["steps"] for e in s if e[0] not in _KNOWN_EVS]
 
 
